@@ -10,6 +10,14 @@ func CacheUpdateFilterExcludeOwner(owner string) func(u *cache.Update) bool {
 	}
 }
 
+// CacheUpdateFilterExcludeOwners filters out the updates of all the given owners
+func CacheUpdateFilterExcludeOwners(owners map[string]struct{}) func(u *cache.Update) bool {
+	return func(u *cache.Update) bool {
+		_, excluded := owners[u.Owner()]
+		return !excluded
+	}
+}
+
 // ApplyCacheUpdateFilters takes a bunch of CacheUpdateFilters applies them in an AND fashion
 // and returns the result.
 func ApplyCacheUpdateFilters(u *cache.Update, fs []CacheUpdateFilter) bool {
